@@ -1,12 +1,316 @@
 import Tpp.Driver.Proto
-/-! Driver slice `Values`: model answers (`run`) and property oracle on the implementation's answers (`oracle`). -/
+import Tpp.Model.Order
+import Tpp.Ref.Glyphs
+/-!
+Driver slice `Values` (property C15): comparison operators and hashing of the value types.
+
+## Protocol
+
+```
+V <type> <value> <value> [<value>]
+W <type> <value>
+```
+
+`<type>` and the encoding of a `<value>` (space-separated decimal numbers, negative numbers with `-`):
+
+| type | C++ type            | value                                                                    |
+|------|---------------------|--------------------------------------------------------------------------|
+| `cs` | `character_set`     | `code`                                                                   |
+| `gl` | `glyph`             | `cs b0 b1 b2` – ALL THREE storage bytes are written by the executor        |
+| `lo` | `low_colour`        | `v` (stored enum value)                                                  |
+| `hi` | `high_colour`       | `v` (stored palette value)                                               |
+| `gr` | `greyscale_colour`  | `v` (stored palette value)                                               |
+| `tc` | `true_colour`       | `r g b`                                                                  |
+| `co` | `colour`            | `k a b c` (k: 0 low, 1 high, 2 grey, 3 rgb; shared encoding)             |
+| `in` `un` `po` `bl` | `intensity` `underlining` `polarity` `blinking` | enum code             |
+| `at` | `attribute`         | `fg(4) bg(4) intensity underlining polarity blinking`                    |
+| `el` | `element`           | glyph(4) attribute(12)                                                   |
+| `st` | `string`            | `n` then `n` elements                                                    |
+| `pt` | `point`             | `x y`                                                                    |
+| `ex` | `extent`            | `w h`                                                                    |
+| `re` | `rectangle`         | `x y w h`                                                                |
+| `cq` | `control_sequence`  | `initiator command meta nargs { len byte* }* extender`                   |
+| `vk` | `virtual_key`       | `key modifiers repeat_count 0 byte` or `key modifiers repeat_count 1 <cq>` |
+| `me` | `mouse::event`      | `action x y`                                                             |
+
+**`V`** answers, for every ordered pair `(i, j)` of the 2 or 3 values (including `i = j`; the executor builds the
+two operands as two separately constructed objects), the block
+
+```
+ij e n l le g ge c h
+```
+
+`e n l le g ge` = `a==b a!=b a<b a<=b a>b a>=b` as `0/1`; `c` = `a<=>b` as `-1/0/1`; `h` = `1/0` whether the REAL
+hash values of `a` and `b` are equal (`-` for the types without `hash_value`).  Blocks are joined by ` | `.
+No hash number is ever printed.  The model prints `h` as equality of the two `HashTree`s.
+
+**`W`** ties `hashTree` to the real `hash_value`: the answer is the tree, flattened –
+`(`, `)` around the children of a node, `b:<n>` for a byte, `e:<n>` for an enumeration value – followed by
+`hash-ok`.  The executor derives the same description independently from the object's public fields, folds it
+with the real `boost::hash_combine` on the real typed values, and prints `hash-ok` only if that fold equals both
+`hash_value(obj)` and `std::hash<T>{}(obj)`; otherwise `hash-MISMATCH`.
+
+## Oracle
+
+The oracle judges the REAL `V` answers with the laws of the property only (it never calls `Tpp.Model.Order`):
+derived operators consistent with `<=>`; `<=>` consistent with `<` and `==`; reflexivity on the `(i,i)` blocks;
+`==` symmetric, `<=>` antisymmetric; exactly one of `a<b`, `a==b`, `b<a`; `a==b` implies equal hashes;
+transitivity of `<` and of `==` over all triples; two values whose descriptions denote the same value
+(identical after blanking the unused storage bytes of non-UTF-8 glyphs) must be `==`; two valid glyphs
+(`Tpp.Ref.Glyphs`) with the same printed bytes and character set must be `==`.
+-/
 namespace Tpp.Driver.Values
 open Tpp Tpp.Driver
 
+/-! ### reading values -/
+
+def rdPoint : Rd Point := do let x ← Rd.int; let y ← Rd.int; return ⟨x, y⟩
+def rdExtent : Rd Extent := do let w ← Rd.int; let h ← Rd.int; return ⟨w, h⟩
+def rdRectangle : Rd Rectangle := do let p ← rdPoint; let e ← rdExtent; return ⟨p, e⟩
+def rdCharset : Rd Charset := do let n ← Rd.num; return (Charset.ofCode n).getD .usAscii
+def rdTString : Rd TString := do let n ← Rd.num; rdElements n
+
+def rdArgs : Nat → Rd (List (List Byte))
+  | 0 => return []
+  | n + 1 => do let len ← Rd.num; let a ← rdBytes len; let r ← rdArgs n; return a :: r
+
+def rdControlSequence : Rd ControlSequence := do
+  let i ← Rd.byte; let c ← Rd.byte; let m ← Rd.num; let n ← Rd.num
+  let args ← rdArgs n
+  let e ← Rd.byte
+  return { initiator := i, command := c, «meta» := m != 0, arguments := args, extender := e }
+
+def rdVirtualKey : Rd VirtualKey := do
+  let k ← Rd.byte; let m ← Rd.byte; let rc ← Rd.int; let kind ← Rd.num
+  if kind = 0 then
+    let b ← Rd.byte
+    return { key := k, modifiers := m, repeatCount := rc, sequence := .raw b }
+  else
+    let c ← rdControlSequence
+    return { key := k, modifiers := m, repeatCount := rc, sequence := .control c }
+
+def rdMouseEvent : Rd MouseEvent := do let a ← Rd.num; let p ← rdPoint; return { action := a, position := p }
+
+/-- up to three values -/
+def rdMany {α : Type} (rd : Rd α) : Nat → Rd (List α)
+  | 0 => return []
+  | n + 1 => do
+    if ← Rd.more then
+      let v ← rd
+      let vs ← rdMany rd n
+      return v :: vs
+    else return []
+
+/-! ### printing -/
+
+mutual
+def flatTree : HashTree → List String
+  | .byte b => [s!"b:{b.toNat}"]
+  | .enum n => [s!"e:{n}"]
+  | .node cs => "(" :: (flatTrees cs ++ [")"])
+def flatTrees : List HashTree → List String
+  | [] => []
+  | t :: ts => flatTree t ++ flatTrees ts
+end
+
+def bit (b : Bool) : String := if b then "1" else "0"
+def showOrdering : Ordering → String
+  | .lt => "-1" | .eq => "0" | .gt => "1"
+
+/-- everything the two protocol kinds need to know about one type -/
+structure Ty (α : Type) where
+  rd : Rd α
+  eq : α → α → Bool
+  lt : α → α → Bool
+  cmp : α → α → Ordering
+  hash : Option (α → HashTree)
+  /-- the description with everything the value does not denote blanked out (oracle only) -/
+  canon : α → α
+  same : α → α → Bool
+
+/-- one block of a `V` answer, from the MODEL.  Derived operators as the compiler rewrites them:
+    `a != b` is `!(a == b)`; `a <= b`, `a > b`, `a >= b` are `(a <=> b) <= 0`, `> 0`, `>= 0`. -/
+def modelBlock {α : Type} (t : Ty α) (a b : α) : String :=
+  let c := t.cmp a b
+  let h := match t.hash with
+    | some f => bit (f a == f b)
+    | none => "-"
+  s!"{bit (t.eq a b)} {bit (!t.eq a b)} {bit (t.lt a b)} {bit (c != .gt)} {bit (c == .gt)} {bit (c != .lt)} {showOrdering c} {h}"
+
+def index {α : Type} (xs : List α) : List (Nat × α) := (List.range xs.length).zip xs
+
+def runV {α : Type} (t : Ty α) (ws : List String) : String :=
+  let (vs, _) := (rdMany t.rd 3).run ws
+  let iv := index vs
+  let blocks := iv.flatMap fun (i, a) => iv.map fun (j, b) => s!"{i}{j} {modelBlock t a b}"
+  if blocks.isEmpty then "-" else " | ".intercalate blocks
+
+def runW {α : Type} (t : Ty α) (ws : List String) : String :=
+  match t.hash with
+  | none => "not-hashable"
+  | some f =>
+    let (v, _) := t.rd.run ws
+    " ".intercalate (flatTree (f v)) ++ " hash-ok"
+
+/-! ### the oracle: laws only -/
+
+structure Block where
+  i : Nat
+  j : Nat
+  e : Bool
+  n : Bool
+  l : Bool
+  le : Bool
+  g : Bool
+  ge : Bool
+  c : Int
+  h : Option Bool
+deriving Inhabited
+
+def parseBlock (s : String) : Option Block :=
+  match words s with
+  | [ij, e, n, l, le, g, ge, c, h] =>
+    let d := ij.toList
+    let b := fun (w : String) => w == "1"
+    let ci : Int := if c == "-1" then -1 else if c == "1" then 1 else 0
+    match d with
+    | [di, dj] =>
+      some { i := di.toNat - 48, j := dj.toNat - 48, e := b e, n := b n, l := b l, le := b le, g := b g, ge := b ge,
+             c := ci, h := if h == "-" then none else some (b h) }
+    | _ => none
+  | _ => none
+
+def findBlock (bs : List Block) (i j : Nat) : Option Block := bs.find? fun b => b.i == i && b.j == j
+
+/-- all violated laws for the real answers `bs` over `n` values; `same i j` = the two descriptions denote
+    the same value; `mustEq i j` = the property's glyph clause applies -/
+def lawFailures (n : Nat) (bs : List Block) (same mustEq : Nat → Nat → Bool) (hashable : Bool) : List String :=
+  let idx := List.range n
+  let get := fun i j => (findBlock bs i j).getD default
+  let missing := idx.flatMap fun i => idx.filterMap fun j =>
+    if (findBlock bs i j).isNone then some s!"missing-block {i}{j}" else none
+  let perBlock := bs.flatMap fun b =>
+    (if b.n != !b.e then [s!"ne-vs-eq {b.i}{b.j}"] else []) ++
+    (if b.le != (b.c ≤ 0) then [s!"le-vs-cmp {b.i}{b.j}"] else []) ++
+    (if b.g != (b.c > 0) then [s!"gt-vs-cmp {b.i}{b.j}"] else []) ++
+    (if b.ge != (b.c ≥ 0) then [s!"ge-vs-cmp {b.i}{b.j}"] else []) ++
+    (if b.l != (b.c < 0) then [s!"cmp-vs-lt {b.i}{b.j}"] else []) ++
+    (if b.e != (b.c == 0) then [s!"cmp-vs-eq {b.i}{b.j}"] else []) ++
+    (if hashable && b.e && b.h != some true then [s!"equal-but-hash-differs {b.i}{b.j}"] else []) ++
+    (if hashable != b.h.isSome then [s!"hash-field {b.i}{b.j}"] else [])
+  let refl := idx.flatMap fun i =>
+    let b := get i i
+    (if !b.e then [s!"eq-not-reflexive {i}"] else []) ++ (if b.l then [s!"lt-not-irreflexive {i}"] else [])
+  let pairs := idx.flatMap fun i => idx.flatMap fun j =>
+    if i < j then
+      let ab := get i j; let ba := get j i
+      (if ab.e != ba.e then [s!"eq-not-symmetric {i}{j}"] else []) ++
+      (if ab.c != - ba.c then [s!"cmp-not-antisymmetric {i}{j}"] else []) ++
+      (if ab.h != ba.h then [s!"hash-equality-not-symmetric {i}{j}"] else []) ++
+      (if (if ab.l then 1 else 0) + (if ab.e then 1 else 0) + (if ba.l then 1 else 0) != 1
+        then [s!"not-exactly-one-of-lt-eq-gt {i}{j}"] else [])
+    else []
+  let sameDesc := idx.flatMap fun i => idx.flatMap fun j =>
+    let b := get i j
+    (if same i j && !b.e then [s!"same-value-not-equal {i}{j}"] else []) ++
+    (if mustEq i j && !b.e then [s!"same-printed-glyph-not-equal {i}{j}"] else [])
+  let triples := idx.flatMap fun i => idx.flatMap fun j => idx.flatMap fun k =>
+    (if (get i j).l && (get j k).l && !(get i k).l then [s!"lt-not-transitive {i}{j}{k}"] else []) ++
+    (if (get i j).e && (get j k).e && !(get i k).e then [s!"eq-not-transitive {i}{j}{k}"] else [])
+  missing ++ perBlock ++ refl ++ pairs ++ sameDesc ++ triples
+
+/-- the property's glyph clause, from `Tpp.Ref.Glyphs` -/
+def glyphMustEq (a b : Glyph) : Bool :=
+  decide a.Valid && decide b.Valid && a.printed == b.printed && decide (a.cs = b.cs)
+
+def oracleV {α : Type} (t : Ty α) (tyName : String) (mustEq : α → α → Bool) (ws : List String) (real : String) : String :=
+  let (vs, _) := (rdMany t.rd 3).run ws
+  let parsed := (real.splitOn " | ").map parseBlock
+  if parsed.any Option.isNone then s!"FAIL C15 {tyName} unparsable-answer {real}" else
+  let bs := parsed.filterMap id
+  let arr := vs.toArray
+  let rel := fun (f : α → α → Bool) (i j : Nat) =>
+    match arr[i]?, arr[j]? with
+    | some a, some b => f a b
+    | _, _ => false
+  let fails := lawFailures vs.length bs (rel fun a b => t.same (t.canon a) (t.canon b)) (rel mustEq) t.hash.isSome
+  match fails with
+  | [] => "ok"
+  | f :: _ => s!"FAIL C15 {tyName} {f} (all: {", ".intercalate fails})"
+
+/-! ### the types -/
+
+def canonGlyph (g : Glyph) : Glyph := if g.cs = .utf8 then g else { g with b1 := 0, b2 := 0 }
+def canonElement (e : Element) : Element := { e with glyph := canonGlyph e.glyph }
+
+def mkTy {α : Type} [DecidableEq α] (rd : Rd α) (eq lt : α → α → Bool) (cmp : α → α → Ordering)
+    (hash : Option (α → HashTree)) (canon : α → α := id) : Ty α :=
+  { rd := rd, eq := eq, lt := lt, cmp := cmp, hash := hash, canon := canon, same := fun a b => decide (a = b) }
+
+def tyCharset := mkTy rdCharset Charset.eq Charset.lt Charset.cmp (some Charset.hashTree)
+def tyGlyph := mkTy rdGlyph Glyph.eq Glyph.lt Glyph.cmp (some Glyph.hashTree) canonGlyph
+def tyLow := mkTy (do let v ← Rd.byte; return (⟨v⟩ : LowColour)) LowColour.eq LowColour.lt LowColour.cmp (some LowColour.hashTree)
+def tyHigh := mkTy (do let v ← Rd.byte; return (⟨v⟩ : HighColour)) HighColour.eq HighColour.lt HighColour.cmp (some HighColour.hashTree)
+def tyGrey := mkTy (do let v ← Rd.byte; return (⟨v⟩ : GreyscaleColour)) GreyscaleColour.eq GreyscaleColour.lt
+  GreyscaleColour.cmp (some GreyscaleColour.hashTree)
+def tyTrue := mkTy (do let r ← Rd.byte; let g ← Rd.byte; let b ← Rd.byte; return (⟨r, g, b⟩ : TrueColour))
+  TrueColour.eq TrueColour.lt TrueColour.cmp (some TrueColour.hashTree)
+def tyColour := mkTy rdColour Colour.eq Colour.lt Colour.cmp (some Colour.hashTree)
+def tyIntensity := mkTy (do let n ← Rd.num; return rdIntensity n) Intensity.eq Intensity.lt Intensity.cmp (some Intensity.hashTree)
+def tyUnderlining := mkTy (do let n ← Rd.num; return rdUnderlining n) Underlining.eq Underlining.lt Underlining.cmp
+  (some Underlining.hashTree)
+def tyPolarity := mkTy (do let n ← Rd.num; return rdPolarity n) Polarity.eq Polarity.lt Polarity.cmp (some Polarity.hashTree)
+def tyBlinking := mkTy (do let n ← Rd.num; return rdBlinking n) Blinking.eq Blinking.lt Blinking.cmp (some Blinking.hashTree)
+def tyAttr := mkTy rdAttr Attr.eq Attr.lt Attr.cmp (some Attr.hashTree)
+def tyElement := mkTy rdElement Element.eq Element.lt Element.cmp (some Element.hashTree) canonElement
+def tyString := mkTy rdTString TString.eq TString.lt TString.cmp (some TString.hashTree) (fun s => s.map canonElement)
+def tyPoint := mkTy rdPoint Point.eq Point.lt Point.cmp none
+def tyExtent := mkTy rdExtent Extent.eq Extent.lt Extent.cmp none
+def tyRectangle := mkTy rdRectangle Rectangle.eq Rectangle.lt Rectangle.cmp none
+def tyControlSequence := mkTy rdControlSequence ControlSequence.eq ControlSequence.lt ControlSequence.cmp none
+def tyVirtualKey := mkTy rdVirtualKey VirtualKey.eq VirtualKey.lt VirtualKey.cmp none
+def tyMouseEvent := mkTy rdMouseEvent MouseEvent.eq MouseEvent.lt MouseEvent.cmp none
+
+/-- apply `k` to the `Ty` named by the first word -/
+def withTy (name : String) (k : {α : Type} → Ty α → (α → α → Bool) → String) : String :=
+  let no := fun {α : Type} (_ _ : α) => false
+  match name with
+  | "cs" => k tyCharset no
+  | "gl" => k tyGlyph glyphMustEq
+  | "lo" => k tyLow no
+  | "hi" => k tyHigh no
+  | "gr" => k tyGrey no
+  | "tc" => k tyTrue no
+  | "co" => k tyColour no
+  | "in" => k tyIntensity no
+  | "un" => k tyUnderlining no
+  | "po" => k tyPolarity no
+  | "bl" => k tyBlinking no
+  | "at" => k tyAttr no
+  | "el" => k tyElement (fun a b => glyphMustEq a.glyph b.glyph && decide (a.attr = b.attr))
+  | "st" => k tyString no
+  | "pt" => k tyPoint no
+  | "ex" => k tyExtent no
+  | "re" => k tyRectangle no
+  | "cq" => k tyControlSequence no
+  | "vk" => k tyVirtualKey no
+  | "me" => k tyMouseEvent no
+  | _ => "?type"
+
 /-- model answer for a case line of this slice; `none` when the kind is not ours -/
-def run (_kind : Char) (_rest : String) : Option String := none
+def run (kind : Char) (rest : String) : Option String :=
+  match kind, words rest with
+  | 'V', name :: ws => some (withTy name fun t _ => runV t ws)
+  | 'W', name :: ws => some (withTy name fun t _ => runW t ws)
+  | 'V', [] => some "?type"
+  | 'W', [] => some "?type"
+  | _, _ => none
 
 /-- oracle verdict (`ok` / `FAIL <ids> …`) given the case, the configuration prefix and the real answer -/
-def oracle (_kind : Char) (_cfg _rest _real : String) : Option String := none
+def oracle (kind : Char) (_cfg rest real : String) : Option String :=
+  match kind, words rest with
+  | 'V', name :: ws => some (withTy name fun t mustEq => oracleV t name mustEq ws real.trimAscii.toString)
+  | 'W', _ => some "ok"   -- a hash-MISMATCH is a broken tie, not a broken law: reported by the correspondence
+  | _, _ => none
 
 end Tpp.Driver.Values
